@@ -321,10 +321,11 @@ def replay (cfg : Cfg) (c : Case) : KRes := Id.run do
 /-- Every non-empty combination of the repair flags (the implementation may carry any subset of
     the repairs; DESIGN 1.3). -/
 def fixedVariants (cfg : Cfg) : List Cfg :=
-  (List.range 64).tail.map fun m =>
+  (List.range 128).tail.map fun m =>
     { cfg with fixReapOrphan := m % 2 == 1, fixReack := (m / 2) % 2 == 1,
                fixWinUpdate := (m / 4) % 2 == 1, fixHsReset := (m / 8) % 2 == 1,
-               fixRstAfterClose := (m / 16) % 2 == 1, fixOrphanTimeout := (m / 32) % 2 == 1 }
+               fixRstAfterClose := (m / 16) % 2 == 1, fixOrphanTimeout := (m / 32) % 2 == 1,
+               fixQuietClose := (m / 64) % 2 == 1 }
 
 /-! ### O: oracles on the implementation's observations -/
 
@@ -412,6 +413,13 @@ def patStaleZeroWindow (h : Spec.History) : Bool :=
 def patLostWindowUpdate (h : Spec.History) : Bool :=
   (droppedPkts h).any fun p => isPureAck p && p.seg.window > 0
 
+/-- F-C06-6: a dropped pure ACK acknowledges a FIN of the reverse flow (the last ACK of a close). -/
+def patLostAckOfFin (h : Spec.History) : Bool :=
+  let em := emitted h
+  (droppedPkts h).any fun p => isPureAck p &&
+    em.any fun q => q.2.udp.isNone && q.2.seg.flags.fin && q.2.src == p.dst && q.2.dst == p.src &&
+      q.2.seg.srcPort == p.seg.dstPort && q.2.seg.dstPort == p.seg.srcPort && q.2.seg.seq + 1 == p.seg.ack
+
 def patLostPureAck (h : Spec.History) : Bool := (droppedPkts h).any isPureAck
 def patZeroWindow (h : Spec.History) : Bool := (emitted h).any fun e => e.2.udp.isNone && e.2.seg.flags.ack && !e.2.seg.flags.rst && e.2.seg.window == 0
 def patLostRst (h : Spec.History) : Bool := (droppedPkts h).any fun p => p.seg.flags.rst
@@ -447,6 +455,7 @@ def oracle (prop : String) (c : Case) (h : Spec.History) (closedWin hsRetx : Boo
           let pat := if closedWin && (patStaleZeroWindow h || patLostWindowUpdate h) then "F-C06-4"
                      else if closedWin then "F-C06-2"
                      else if patLostHandshakeAck h then "F-C06-3"
+                     else if patLostAckOfFin h then "F-C06-6"
                      else if patLostPureAck h then "F-C06-1" else if hsRetx then "F-C06-5" else "none"
           { fail := some m, pattern := pat }
         | none => {}
@@ -536,7 +545,7 @@ def covTags (c : Case) (h : Spec.History) : List String := Id.run do
 def withFlags (cfg src : Cfg) : Cfg :=
   { cfg with fixReapOrphan := src.fixReapOrphan, fixReack := src.fixReack, fixWinUpdate := src.fixWinUpdate,
              fixHsReset := src.fixHsReset, fixRstAfterClose := src.fixRstAfterClose,
-             fixOrphanTimeout := src.fixOrphanTimeout }
+             fixOrphanTimeout := src.fixOrphanTimeout, fixQuietClose := src.fixQuietClose }
 
 def processCase (prop : String) (c : Case) (memo : IO.Ref (Option Cfg)) : IO (Bool × Bool) := do
   let k0 : KRes := if c.nok then { ok := true } else replay c.cfg c
